@@ -71,7 +71,7 @@ def gen_unit(rng, tier):
         for p in range(1, maxp + 1):
             for r in range(p):
                 lines.append(('FP %d %d 0 0 1 16 2 %d 0 0' % (p, r, ln), ['exhaustive-share'], None))
-    nfam = 40 if tier == 'quick' else 300
+    nfam = 80 if tier == 'quick' else 1000
     for _ in range(nfam):
         p = rng.choice([1, 2, 3, 4, 5, 7, 8, 13, 64])
         nv = rng.range(1, 5)
@@ -679,7 +679,7 @@ def run_check(tier, seed):
         # ---- API stream
         t2 = Timer()
         ranks_api = [1, 2, 3, 4] if tier == 'quick' else [1, 2, 3, 4, 5, 7, 8]
-        per_rank = 9 if tier == 'quick' else 45
+        per_rank = 20 if tier == 'quick' else 150
         plan_reqs = []
         nscen = 0
         for np_ in ranks_api:
